@@ -595,3 +595,18 @@ Definition inherit {A} (own parent : option A) : option A :=
 Definition effective (own parent : settings) : settings :=
   {| s_fmt := s_fmt own; s_tmpl := s_tmpl own; s_bp := inherit (s_bp own) (s_bp parent);
      s_tags := inherit (s_tags own) (s_tags parent); s_pkg := s_pkg own |}.
+
+(* ---------- an output file shared by several mocks ---------- *)
+(* internal/cmd/mockery.go (RootApp.Run): `fileConfig := interfacesInFile.interfaces[0].Config` -
+   the parameters of the file as a whole, the file-level template-data with boilerplate-file and
+   mock-build-tags among them, are those of the FIRST mock added to the file (interfaces in
+   file-name and declaration order, `configs` entries in list order); the templates read the two
+   header keys from that file-level data only.  [mocks] = the effective settings of the mocks
+   of the file, in that order. *)
+Definition file_settings (mocks : list settings) : option settings :=
+  match mocks with [] => None | m :: _ => Some m end.
+Definition shared_prefix (mocks : list settings) : option str :=
+  match file_settings mocks with
+  | Some m => Some (header (s_fmt m) (s_tmpl m) (s_bp m) (s_tags m) ++ pkg_line (s_pkg m))
+  | None => None
+  end.
